@@ -502,29 +502,48 @@ Section InvG.
     tg_fifo : completions evs ++ queued d' = queued d;       (* FIFO + conservation: completions come off the front *)
     tg_store : length store' = length store;
     tg_ping : dv_last_ping d' = dv_last_ping d \/ dv_last_ping d' = now;
-    tg_conn : conn_rel now d d' evs
+    tg_conn : conn_rel now d d' evs;
+    tg_live : live evs (queued d')                           (* callbacks only for clients still owed a completion *)
   }.
+
+  Lemma complete_no_cb d a : no_cb (complete d a).
+  Proof. unfold complete. destruct (a_hascb a); [constructor; [reflexivity|constructor]|constructor]. Qed.
+  Lemma fail_queue_no_cb d h rest : no_cb (fail_queue d h rest).
+  Proof.
+    unfold fail_queue. apply no_cb_app; [apply complete_no_cb|].
+    induction rest as [|a r IH]; [constructor|]. cbn [flat_map]. apply no_cb_app; [apply complete_no_cb|exact IH].
+  Qed.
+  Lemma live_fail d act0 act rest pre e2 q :
+    a_hascb act = a_hascb act0 -> a_client act = a_client act0 -> Forall (cb_of act0) pre -> flag_ok act0 -> no_cb e2 ->
+    live (pre ++ fail_queue d act rest ++ e2) q.
+  Proof.
+    intros Hcb Hcl Hpre Hfl He2. apply live_app.
+    - eapply live_head; [exact Hpre|]. intros Hf. apply in_or_app. left.
+      rewrite completions_app, fail_queue_completions, Hcb, Hcl, (Hfl Hf). left. reflexivity.
+    - apply live_app; [apply live_no_cb, fail_queue_no_cb|apply live_no_cb, He2].
+  Qed.
 
   (* the error branch of _process_action: every queued action is completed (in order), the queue is empty
      afterwards except for the login of a connection that came back at once *)
   Lemma fail_and_reconnect_invG now d act0 act rest store tmo plans pre :
     QInvG d -> (dv_cstate d <> DEV_CONNECTED -> DInvG d) -> dv_cstate d = DEV_NOT_CONNECTED \/ dv_cstate d = DEV_CONNECTING \/ dv_cstate d = DEV_CONNECTED ->
     dv_acts d = act0 :: rest -> a_hascb act = a_hascb act0 -> a_client act = a_client act0 ->
-    completions pre = [] -> nconn pre = O -> tmo_pos tmo ->
+    completions pre = [] -> nconn pre = O -> tmo_pos tmo -> Forall (cb_of act0) pre ->
     exists d2 tmo2 pl evs, fail_and_reconnect now d act rest store tmo plans pre = Ok (PaDone d2 store tmo2 pl evs) /\
       DInvG d2 /\ same_cfg d d2 /\ tmo_pos tmo2 /\ tmo_le tmo2 tmo /\ completions evs = queued d /\ queued d2 = [] /\
       dv_last_ping d2 = dv_last_ping d /\ conn_rel now d d2 evs /\
       (dv_acts d2 = [] \/ exists s, dv_acts d2 = [create_action s PM_LOG_IN None 0 false false false None] /\ dv_cstate d2 = DEV_CONNECTED) /\
-      exists e2, evs = pre ++ fail_queue d act rest ++ e2 /\ completions e2 = [].
+      (exists e2, evs = pre ++ fail_queue d act rest ++ e2 /\ completions e2 = []) /\ live evs (queued d2).
   Proof.
-    intros (Qc & Qa & Qt & Qb) I Hst Ea Hcb Hcl Hpre Npre Hp. unfold fail_and_reconnect.
+    intros ((Qc & Qa & Qt & Qb) & Qf) I Hst Ea Hcb Hcl Hpre Npre Hp Hcbpre. unfold fail_and_reconnect.
+    assert (Hfl0 : flag_ok act0) by (unfold Flags in Qf; rewrite Ea in Qf; inversion Qf; assumption).
     assert (Hcomp : completions (pre ++ fail_queue d act rest) = queued d).
     { rewrite completions_app, Hpre, fail_queue_completions, Hcb, Hcl, (queued_cons _ _ _ Ea). reflexivity. }
     assert (Q0 : QInvG (set_acts [] d)).
-    { split; [exact Qc|]. dsimpl. repeat split; constructor. }
+    { split; [|constructor]. split; [exact Qc|]. dsimpl. repeat split; constructor. }
     destruct (connected (set_acts [] d)) eqn:Ec.
     - assert (Hc : dv_cstate d = DEV_CONNECTED) by (apply connected_iff; exact Ec).
-      destruct (reconnect_invG now (set_acts [] d) tmo plans Q0) as (d2 & e2 & tmo2 & pl & E2 & I2 & S2 & Q2 & C2 & P2 & L2 & LP2 & A2 & A2'); [dsimpl; rewrite Hc; discriminate|exact Hp|].
+      destruct (reconnect_invG now (set_acts [] d) tmo plans Q0) as (d2 & e2 & tmo2 & pl & E2 & I2 & S2 & Q2 & C2 & P2 & L2 & LP2 & A2 & A2' & NC2); [dsimpl; rewrite Hc; discriminate|exact Hp|].
       rewrite E2. exists d2, tmo2, pl, ((pre ++ fail_queue d act rest) ++ e2).
       pose proof (reconnect_conn _ _ _ _ _ _ _ _ E2) as CR.
       split; [reflexivity|]. conj_split; auto.
@@ -534,6 +553,7 @@ Section InvG.
         destruct (Z.eq_dec (dv_cstate d2) DEV_CONNECTED) as [E|E]; [right|left; auto].
         destruct (A2' E) as (s & _ & Es). exists s. auto.
       + exists e2. rewrite <- app_assoc. auto.
+      + rewrite <- app_assoc. now apply (live_fail d act0).
     - assert (Hc : dv_cstate d <> DEV_CONNECTED) by (apply connected_false_iff; exact Ec).
       specialize (I Hc).
       exists (set_acts [] d), tmo, plans, (pre ++ fail_queue d act rest). split; [reflexivity|]. conj_split; auto.
@@ -542,13 +562,16 @@ Section InvG.
         * constructor. * constructor.
         * split; [intros (l & r & El & _); discriminate El|]. intros [E _]. contradiction.
         * constructor.
-        * exact (dg_to d I).
-        * apply (dg_to d I). exact Hc.
+        * constructor.
       + repeat split.
       + apply tmo_le_refl.
       + left. rewrite nconn_app, Npre, fail_queue_nconn. dsimpl. auto.
       + exists []. rewrite app_nil_r. auto.
+      + rewrite <- (app_nil_r (fail_queue d act rest)). apply (live_fail d act0); auto. constructor.
   Qed.
+
+  Lemma cb_of_stamp act0 s evs : Forall (cb_of (set_stamp s act0)) evs -> Forall (cb_of act0) evs.
+  Proof. intros H. eapply Forall_impl; [|exact H]. intros [] Hx; exact Hx. Qed.
 
   Lemma pa_step_invG now d store tmo plans : DInvG d -> tmo_pos tmo ->
     match pa_step rmatch compress sc now d store tmo plans with
@@ -561,21 +584,22 @@ Section InvG.
     intros I Hp. unfold pa_step.
     destruct (dv_acts d) as [|act0 rest] eqn:Ea.
     { split; [|unfold timer_ok; now rewrite Ea].
-      constructor; auto; try apply same_cfg_refl; try apply tmo_le_refl. left. auto. }
+      constructor; auto; try apply same_cfg_refl; try apply tmo_le_refl; try apply live_nil. left. auto. }
     pose proof (dg_acts d I) as Hw. rewrite Ea in Hw. inversion Hw as [|? ? Hw0 Hwr]; subst.
+    pose proof (dg_flags d I) as Hfl. unfold Flags in Hfl. rewrite Ea in Hfl. inversion Hfl as [|? ? Hfl0 Hflr]; subst.
     destruct (a_exec act0) as [|e0 er] eqn:Eex; [destruct Hw0 as (H & _); congruence|].
     set (stamp := match a_stamp act0 with Some t => t | None => now end).
     set (act := set_stamp (Some stamp) act0).
     assert (Hwa : wf_action (sd_plugs (dv d)) act) by exact Hw0.
     assert (Hida : a_com act = a_com act0 /\ a_hascb act = a_hascb act0 /\ a_client act = a_client act0 /\ a_exec act = a_exec act0) by (repeat split).
     destruct Hida as (Ida1 & Ida2 & Ida3 & Ida4).
-    assert (Htoh : inv_to (dv d) act).
-    { pose proof (dg_to_head d I) as H. rewrite Ea in H. exact H. }
     pose proof (DInvG_QInvG d I) as Q.
     destruct (stamp + dv_timeout d <=? now) eqn:El.
     - (* timed out *)
+      assert (Hcbt : Forall (cb_of act0) (timeout_tele d act)).
+      { unfold timeout_tele. destruct (a_tele act) eqn:Et; constructor; [split; [reflexivity|exact Et]|constructor]. }
       destruct (fail_and_reconnect_invG now d act0 (set_err (timeout_err d) act) rest store tmo plans (timeout_tele d act) Q (fun _ => I) (dg_state d I) Ea)
-        as (d2 & tmo2 & pl & evs & E & I2 & S2 & P2 & L2 & C2 & Q2 & LP2 & CR2 & A2 & _); auto.
+        as (d2 & tmo2 & pl & evs & E & I2 & S2 & P2 & L2 & C2 & Q2 & LP2 & CR2 & A2 & _ & LV2); auto.
       + unfold timeout_tele. destruct (a_tele act); reflexivity.
       + unfold timeout_tele. destruct (a_tele act); reflexivity.
       + rewrite E. split.
@@ -586,24 +610,30 @@ Section InvG.
       2:{ (* stalled: not connected *)
         destruct (upd_tmo_props tmo (stamp + dv_timeout d - now) ltac:(lia) Hp) as (U1 & U2 & (y & U3 & U4)).
         split.
-        - constructor; dsimpl; auto; try (repeat split; fail).
+        - constructor.
           + constructor; dsimpl.
             * exact (dg_cfg d I). * exact (dg_state d I). * exact (dg_fd d I). * exact (dg_li d I).
             * constructor; assumption.
             * pose proof (dg_tail d I) as Ht. rewrite Ea in Ht. exact Ht.
             * rewrite <- (dg_head d I), Ea. split; intros (l & r & E & Hl); inversion E; subst; eexists _, _; (split; [reflexivity|exact Hl]).
             * pose proof (dg_cb d I) as Hcb. rewrite Ea in Hcb. inversion Hcb; subst. constructor; assumption.
-            * exact (dg_to d I).
-            * exact Htoh.
+            * unfold Flags. dsimpl. constructor; assumption.
+          + repeat split.
+          + exact U1.
+          + exact U2.
           + unfold queued. dsimpl. rewrite Ea. unfold act. cbn. destruct (a_hascb act0); reflexivity.
-          + left. auto.
+          + reflexivity.
+          + left. reflexivity.
+          + left. dsimpl. auto.
+          + apply live_nil.
         - unfold timer_ok. dsimpl. left. exists stamp, y. repeat split; auto; lia. }
       (* connected: run statements *)
-      pose proof (do_while_props rmatch compress sc 8 now (dv d) act store [] None Hwa Htoh) as Hdw.
+      pose proof (do_while_propsG rmatch compress sc 8 now (dv d) act store [] None Hwa) as Hdw.
       destruct (do_while rmatch compress sc 8 now (dv d) act store [] None) as [[[[[[fin sd'] act'] store'] evs] dt]| | | |]; try contradiction; [|exact Logic.I].
       destruct Hdw as (evs1 & t1 & Eevs & Edt & SP). cbn [app] in Eevs. subst evs1. cbn [min_tmo] in Edt. subst t1.
-      destruct SP as [w1 p1 n1 fi1 stl1 i1 v1 m1 s1 [l1 q1]].
+      destruct SP as [w1 p1 n1 i1 v1 m1 [l1 q1] cb1].
       destruct i1 as (J1 & J2 & J3 & J4 & J5 & J6 & J7).
+      apply cb_of_stamp in cb1.
       set (d1 := upd_sdev (fun _ => sd') d).
       set (tmo1 := match dt with Some v => upd_tmo tmo v | None => tmo end).
       assert (Ht1 : tmo_pos tmo1 /\ tmo_le tmo1 tmo).
@@ -615,11 +645,13 @@ Section InvG.
       assert (Hce : completions evs = []) by (apply completions_script; exact v1).
       assert (Hne : nconn evs = O) by (apply nconn_script; exact v1).
       (* a device whose head is a (changed) version of the same action *)
-      assert (Keep : forall a2 tmo2, wf_action (sd_plugs (dv d)) a2 -> same_id act a2 -> inv_to sd' a2 -> tmo_pos tmo2 -> tmo_le tmo2 tmo ->
+      assert (Keep : forall a2 tmo2, wf_action (sd_plugs (dv d)) a2 -> same_id act a2 -> tmo_pos tmo2 -> tmo_le tmo2 tmo ->
                 step_postG now d store tmo (set_acts (a2 :: rest) d1) store' tmo2 evs).
-      { intros a2 tmo2 Hw2 (K1 & K2 & K3 & K4 & K5 & K6 & K7) Hto2 Hp2 Hl2.
-        constructor; auto; unfold d1; dsimpl; auto.
-        - constructor; dsimpl.
+      { intros a2 tmo2 Hw2 (K1 & K2 & K3 & K4 & K5 & K6 & K7) Hp2 Hl2.
+        assert (Hq2 : queued (set_acts (a2 :: rest) d1) = queued d).
+        { unfold queued. dsimpl. rewrite Ea. cbn [filter app]. rewrite K3, Ida2. destruct (a_hascb act0); cbn [map]; [rewrite K2, Ida3|]; reflexivity. }
+        constructor.
+        - constructor; unfold d1; dsimpl.
           + apply (cfg_ok_same d d1); [exact Hcfg1|exact (dg_cfg d I)].
           + exact (dg_state d I). + exact (dg_fd d I). + exact (dg_li d I).
           + rewrite p1. constructor; assumption.
@@ -628,17 +660,21 @@ Section InvG.
             split; intros (l & r & E & Hl); inversion E; subst; eexists _, _; (split; [reflexivity|]); unfold is_login in *; [rewrite <- Ida1, <- K1|rewrite K1, Ida1]; exact Hl.
           + pose proof (dg_cb d I) as Hcb. rewrite Ea in Hcb. inversion Hcb as [|? ? Hh Hr]; subst. constructor; [|assumption].
             unfold is_login. rewrite K1, K3, Ida1, Ida2. exact Hh.
-          + intros Hc. contradiction.
-          + exact Hto2.
-        - rewrite Hce. unfold queued. dsimpl. rewrite Ea. cbn [filter app]. rewrite K3, Ida2. destruct (a_hascb act0); cbn [map]; [rewrite K2, Ida3|]; reflexivity.
-        - left. auto. }
+          + unfold Flags. dsimpl. constructor; [|assumption]. unfold flag_ok. rewrite K3, K4, K5. exact Hfl0.
+        - unfold d1. repeat split; dsimpl; auto.
+        - exact Hp2.
+        - exact Hl2.
+        - rewrite Hce, Hq2. reflexivity.
+        - exact l1.
+        - left. reflexivity.
+        - left. unfold d1. dsimpl. auto.
+        - rewrite Hq2. eapply live_head; [exact cb1|]. intros Hf. rewrite (queued_cons _ _ _ Ea), (Hfl0 Hf). left. reflexivity. }
       destruct fin; cbn [negb].
       2:{ (* stalled inside a statement *)
         destruct (upd_tmo_props tmo1 (stamp + dv_timeout d - now) ltac:(lia) Ht1) as (U1 & U2 & (y & U3 & U4)).
         split.
         - apply Keep; auto; [repeat split; auto|eapply tmo_le_trans; eassumption].
         - unfold timer_ok, d1. dsimpl. left. exists stamp, y. rewrite J6. split; [reflexivity|]. split; [exact U3|exact U4]. }
-      specialize (fi1 eq_refl).
       destruct (Z.eqb (a_err act') ACT_ESUCCESS) eqn:Eerr.
       + destruct (advance_props _ act' w1) as (A1 & A2 & A3).
         destruct (a_exec (advance act')) as [|e2 r2] eqn:Eadv.
@@ -654,7 +690,9 @@ Section InvG.
                            dv_retry_count d2 = dv_retry_count d /\ dv_last_ping d2 = dv_last_ping d).
           { rewrite Ed2. unfold d1. destruct (Z.eqb _ PM_LOG_IN); cbn; repeat split. }
           destruct Hsame2 as (B1 & B2 & B3 & B4 & B5 & B6 & B7 & B8 & B9).
-          constructor; dsimplg; auto; try congruence.
+          assert (Hcc : completions (complete d2 (advance act')) = if a_hascb act0 then [a_client act0] else []).
+          { rewrite complete_completions. destruct A1 as (K1 & K2 & K3 & _). rewrite K3, K2, J3, J2, Ida2, Ida3. reflexivity. }
+          constructor.
           -- constructor; dsimplg; rewrite ?B1, ?B2, ?B3, ?B4, ?B5, ?B6.
              ++ destruct (dg_cfg d I) as [C1 C2]. split; dsimplg; rewrite ?B1, ?B2, ?p1; auto.
              ++ exact (dg_state d I). ++ exact (dg_fd d I). ++ intros _. exact Hcs.
@@ -663,21 +701,26 @@ Section InvG.
              ++ rewrite Hli2. split; [|intros [_ E]; discriminate E].
                 intros (l & r & E & Hl). exfalso. pose proof (dg_tail d I) as Ht. rewrite Ea in Ht. cbn [tl] in Ht. rewrite E in Ht. inversion Ht as [|? ? Hl0 Hl1]. congruence.
              ++ pose proof (dg_cb d I) as Hcb. rewrite Ea in Hcb. inversion Hcb; assumption.
-             ++ intros Hc. contradiction.
-             ++ destruct rest; [exact fi1|left; exact fi1].
+             ++ unfold Flags. dsimplg. exact Hflr.
           -- repeat split; dsimplg; rewrite ?B1, ?B2, ?B3, ?B4; auto.
-          -- rewrite completions_app, Hce, complete_completions. cbn [app]. unfold queued. dsimplg. rewrite Ea. cbn [filter].
-             destruct A1 as (K1 & K2 & K3 & _). rewrite K3, K2, J3, J2, Ida2, Ida3. destruct (a_hascb act0); reflexivity.
+          -- exact Ht1.
+          -- exact Ht1'.
+          -- rewrite completions_app, Hce, Hcc. cbn [app]. unfold queued. dsimplg. rewrite Ea. cbn [filter].
+             destruct (a_hascb act0); reflexivity.
+          -- exact l1.
+          -- left. dsimplg. exact B9.
           -- left. rewrite nconn_app, Hne, complete_nconn. dsimplg. rewrite B7, B8. auto.
+          -- apply live_app; [|apply live_no_cb, complete_no_cb].
+             eapply live_head; [exact cb1|]. intros Hf. apply in_or_app. left. rewrite Hcc, (Hfl0 Hf). left. reflexivity.
         * (* next statement of the same action *)
           destruct A3 as [A3|A3]; [try rewrite Eadv in A3; discriminate A3|].
           apply Keep; auto.
-          -- eapply same_id_trans; [|exact A1]. repeat split; auto.
-          -- left. exact fi1.
+          eapply same_id_trans; [|exact A1]. repeat split; auto.
       + (* the statement failed the action *)
         apply Z.eqb_neq in Eerr.
         assert (Q1 : QInvG (set_acts (act0 :: rest) d1)).
-        { split; [apply (cfg_ok_same d d1); [exact Hcfg1|exact (dg_cfg d I)]|]. unfold d1. dsimpl. rewrite p1.
+        { split; [|unfold Flags, d1; dsimpl; constructor; assumption].
+          split; [apply (cfg_ok_same d d1); [exact Hcfg1|exact (dg_cfg d I)]|]. unfold d1. dsimpl. rewrite p1.
           split; [constructor; assumption|]. pose proof (dg_tail d I) as Ht. pose proof (dg_cb d I) as Hcb. rewrite Ea in Ht, Hcb. auto. }
         assert (Ed1 : set_acts (act0 :: rest) d1 = d1) by (unfold d1; destruct d; dsimpl; cbn in Ea; subst; reflexivity).
         rewrite Ed1 in Q1.
@@ -686,8 +729,8 @@ Section InvG.
         assert (F3 : dv_acts d1 = act0 :: rest) by (exact Ea).
         assert (F4 : a_hascb act' = a_hascb act0) by (rewrite J3; exact Ida2).
         assert (F5 : a_client act' = a_client act0) by (rewrite J2; exact Ida3).
-        destruct (fail_and_reconnect_invG now d1 act0 act' rest store' tmo1 plans evs Q1 F1 F2 F3 F4 F5 Hce Hne Ht1)
-          as (d2 & tmo2 & pl & evs2 & E & I2 & S2 & P2 & L2 & C2 & Q2 & LP2 & CR2 & A2 & _).
+        destruct (fail_and_reconnect_invG now d1 act0 act' rest store' tmo1 plans evs Q1 F1 F2 F3 F4 F5 Hce Hne Ht1 cb1)
+          as (d2 & tmo2 & pl & evs2 & E & I2 & S2 & P2 & L2 & C2 & Q2 & LP2 & CR2 & A2 & _ & LV2).
         rewrite E. split.
         * constructor; auto.
           -- eapply same_cfg_trans; eassumption.
@@ -697,19 +740,20 @@ Section InvG.
   Qed.
 
   Lemma step_postG_refl now d store tmo : DInvG d -> tmo_pos tmo -> step_postG now d store tmo d store tmo [].
-  Proof. intros I Hp. constructor; auto; try apply same_cfg_refl; try apply tmo_le_refl. left. auto. Qed.
+  Proof. intros I Hp. constructor; auto; try apply same_cfg_refl; try apply tmo_le_refl; try apply live_nil. left. auto. Qed.
 
   Lemma step_postG_trans now d st tmo d1 st1 tmo1 e1 d2 st2 tmo2 e2 : 0 <= dv_retry_count d ->
     step_postG now d st tmo d1 st1 tmo1 e1 -> step_postG now d1 st1 tmo1 d2 st2 tmo2 e2 ->
     step_postG now d st tmo d2 st2 tmo2 (e1 ++ e2).
   Proof.
-    intros Hrc [i1 c1 p1 l1 f1 s1 g1 r1] [i2 c2 p2 l2 f2 s2 g2 r2]. constructor; auto.
+    intros Hrc [i1 c1 p1 l1 f1 s1 g1 r1 v1] [i2 c2 p2 l2 f2 s2 g2 r2 v2]. constructor; auto.
     - eapply same_cfg_trans; eassumption.
     - eapply tmo_le_trans; eassumption.
     - rewrite completions_app, <- app_assoc, f2. exact f1.
     - congruence.
     - destruct g2 as [g2|g2]; [|right; exact g2]. rewrite g2. exact g1.
     - eapply conn_rel_trans; eassumption.
+    - apply live_app; [rewrite f2; exact v1|exact v2].
   Qed.
 
   Lemma process_action_invG : forall fuel now d store tmo plans acc, DInvG d -> tmo_pos tmo -> 0 <= dv_retry_count d ->
@@ -730,24 +774,25 @@ Section InvG.
       eapply step_postG_trans; eassumption.
   Qed.
 
-  (* ---------- one device's share of dev_post_poll ---------- *)
-  Lemma post_poll_one_inv_pre now d store tmo pin : DInvG d -> tmo_pos tmo -> 0 <= dv_retry_count d -> pi_pre pin = None ->
+  (* ---------- one device's share of dev_post_poll, for ANY answer of the transport's preprocess method ---------- *)
+  Lemma post_poll_one_inv_pre now d store tmo pin : DInvG d -> tmo_pos tmo -> 0 <= dv_retry_count d ->
     match post_poll_one rmatch compress sc now d store tmo pin with
     | Ok (d', store', tmo', evs) => step_postG now d store tmo d' store' tmo' evs /\ timer_ok now d' tmo'
     | Hang _ => True
     | _ => False
     end.
   Proof.
-    intros I Hp Hrc Hpre. unfold post_poll_one.
+    intros I Hp Hrc. unfold post_poll_one.
     (* 1. the descriptor *)
     assert (H0 : exists ioerr d1 e1, (if dv_has_fd d && any_flag pin then handle_ready d pin else Ok (false, d, [])) = Ok (ioerr, d1, e1) /\
                  step_postG now d store tmo d1 store tmo e1).
     { destruct (dv_has_fd d) eqn:Efd; cbn [andb]; [|exists false, d, []; split; [reflexivity|now apply step_postG_refl]].
       destruct (any_flag pin); [|exists false, d, []; split; [reflexivity|now apply step_postG_refl]].
-      destruct (handle_ready_invG d pin I Efd Hpre) as (io & d1 & e1 & E & I1 & S1 & Q1 & C1 & N1 & R1 & L1 & LP1 & _).
+      destruct (handle_ready_invG d pin I Efd) as (io & d1 & e1 & E & I1 & S1 & Q1 & C1 & N1 & R1 & L1 & LP1 & _ & NC1).
       exists io, d1, e1. split; [exact E|]. constructor; auto; try apply tmo_le_refl.
       - rewrite C1, Q1. reflexivity.
-      - left. auto. }
+      - left. auto.
+      - now apply live_no_cb. }
     destruct H0 as (ioerr & d1 & e1 & -> & SP1).
     pose proof (tg_inv _ _ _ _ _ _ _ _ SP1) as I1.
     pose proof (conn_rel_rc _ _ _ _ (tg_conn _ _ _ _ _ _ _ _ SP1) Hrc) as Hrc1.
@@ -755,10 +800,11 @@ Section InvG.
     assert (H2 : exists d2 e2 tmo2 pl, (if ioerr || Z.eqb (dv_cstate d1) DEV_NOT_CONNECTED then reconnect now d1 tmo (pi_plans pin) else Ok (d1, [], tmo, pi_plans pin)) = Ok (d2, e2, tmo2, pl) /\
                  step_postG now d1 store tmo d2 store tmo2 e2).
     { destruct (ioerr || Z.eqb (dv_cstate d1) DEV_NOT_CONNECTED).
-      - destruct (reconnect_invG now d1 tmo (pi_plans pin) (DInvG_QInvG d1 I1) (fun _ => I1) Hp) as (d2 & e2 & tmo2 & pl & E & I2 & S2 & Q2 & C2 & P2 & L2 & LP2 & _).
+      - destruct (reconnect_invG now d1 tmo (pi_plans pin) (DInvG_QInvG d1 I1) (fun _ => I1) Hp) as (d2 & e2 & tmo2 & pl & E & I2 & S2 & Q2 & C2 & P2 & L2 & LP2 & _ & _ & NC2).
         exists d2, e2, tmo2, pl. split; [exact E|]. constructor; auto.
         + rewrite C2, Q2. reflexivity.
         + eapply reconnect_conn. exact E.
+        + now apply live_no_cb.
       - exists d1, [], tmo, (pi_plans pin). split; [reflexivity|now apply step_postG_refl]. }
     destruct H2 as (d2 & e2 & tmo2 & pl & -> & SP2).
     pose proof (tg_inv _ _ _ _ _ _ _ _ SP2) as I2.
@@ -772,7 +818,8 @@ Section InvG.
       - unfold enqueue_ping in E. destruct (assoc_script PM_PING (dv_scripts d2)); [|inversion E; subst; auto].
         destruct (Z.eqb (dv_ping_period d2) 0); [inversion E; subst; auto|].
         destruct (_ <=? now); inversion E; subst; auto.
-      - left. auto. }
+      - left. auto.
+      - apply live_nil. }
     destruct H3 as (d3 & tmo3 & -> & SP3).
     pose proof (tg_inv _ _ _ _ _ _ _ _ SP3) as I3.
     pose proof (conn_rel_rc _ _ _ _ (tg_conn _ _ _ _ _ _ _ _ SP3) Hrc2) as Hrc3.
@@ -784,4 +831,26 @@ Section InvG.
     pose proof (step_postG_trans _ _ _ _ _ _ _ _ _ _ _ _ Hrc SP12 SP3) as SP123. rewrite app_nil_r in SP123.
     exact (step_postG_trans _ _ _ _ _ _ _ _ _ _ _ _ Hrc SP123 SP4).
   Qed.
-End Inv.
+
+  (* ---------- job 2: telemetry and diagnostics only ever reach a client that is still busy ---------- *)
+  Lemma post_poll_one_callbacks_liveG now d store tmo pin d' store' tmo' evs : DInvG d -> tmo_pos tmo -> 0 <= dv_retry_count d ->
+    post_poll_one rmatch compress sc now d store tmo pin = Ok (d', store', tmo', evs) ->
+    forall e1 c m e2, (evs = e1 ++ [EvTele c m] ++ e2 \/ evs = e1 ++ [EvDiag c m] ++ e2) -> In c (completions e2 ++ queued d').
+  Proof.
+    intros I Hp Hrc E e1 c m e2 He. pose proof (post_poll_one_inv_pre now d store tmo pin I Hp Hrc) as H. rewrite E in H.
+    destruct H as [SP _]. pose proof (tg_live _ _ _ _ _ _ _ _ SP) as L.
+    destruct He as [He|He]; (eapply L; [exact He|reflexivity]).
+  Qed.
+
+  (* the old interface: under the full invariant DInv (which implies pi-independent facts) and the flag condition *)
+  Lemma post_poll_one_callbacks_live now d store tmo pin d' store' tmo' evs : DInv compress d -> Flags d -> tmo_pos tmo -> 0 <= dv_retry_count d ->
+    post_poll_one rmatch compress sc now d store tmo pin = Ok (d', store', tmo', evs) ->
+    Flags d' /\
+    forall e1 c m e2, (evs = e1 ++ [EvTele c m] ++ e2 \/ evs = e1 ++ [EvDiag c m] ++ e2) -> In c (completions e2 ++ queued d').
+  Proof.
+    intros I F Hp Hrc E. pose proof (post_poll_one_inv_pre now d store tmo pin (DInv_G d I F) Hp Hrc) as H. rewrite E in H.
+    destruct H as [SP _]. split; [exact (dg_flags _ (tg_inv _ _ _ _ _ _ _ _ SP))|].
+    intros e1 c m e2 He. pose proof (tg_live _ _ _ _ _ _ _ _ SP) as L.
+    destruct He as [He|He]; (eapply L; [exact He|reflexivity]).
+  Qed.
+End InvG.
